@@ -524,6 +524,10 @@ func trimWhitespace(t *Tree, s string) string {
 		}
 
 		if len(str) == 0 {
+			if i != len(lines)-1 {
+				// An empty line still ends with its line-break.
+				trimmed += lineBreaks[0]
+			}
 			continue
 		}
 
